@@ -245,9 +245,9 @@ def native_replay(name, model, buf):
     """Run the real writer with the model's element count into a buffer of the real size."""
     kind = name
     n = model.get("n", model.get("k", 0))
-    exe = os.path.join(VERIF, ".targets", "replay", "release", "c18-replay")
-    if not os.path.exists(exe):
-        env = dict(os.environ, CARGO_NET_OFFLINE="true", CARGO_TARGET_DIR=os.path.join(VERIF, ".targets", "replay"))
+    exe = os.path.join(os.environ.get("VERIF_TARGETS") or os.path.join(VERIF, ".targets"), "replay", "release", "c18-replay")
+    if True:  # always rebuild: the replay must run the writers of /repo's current working tree
+        env = dict(os.environ, CARGO_NET_OFFLINE="true", CARGO_TARGET_DIR=os.path.join(os.environ.get("VERIF_TARGETS") or os.path.join(VERIF, ".targets"), "replay"))
         env.pop("RUSTUP_TOOLCHAIN", None)
         src = "/repo/Cargo.lock"
         try:
